@@ -113,6 +113,31 @@ def Ruler.enableOnly (r : Ruler) (names : List String) (ign : Bool) : Ruler × E
   let r1 : Ruler := { rules := r.rules.map (fun x => { x with enabled := false }), cache := none }
   r1.enable names ign
 
+/-- `enable`/`disable` with a *lazy* `names` iterable: before it yields its k-th name the iterable may
+    run arbitrary code — here a `getRules(chain)` on the same ruler (a re-entrant parse).  The cache is
+    dropped before the loop, may be recompiled from half-updated flags inside it, and is dropped again
+    after it (the trailing `self.__cache__ = None`). -/
+def enableLoopLazy (b : Bool) (ignoreInvalid : Bool) :
+    List (Option String × String) → Ruler → List String → (Ruler × Except PyErr (List String))
+  | [], r, acc => (r, .ok acc.reverse)
+  | (cb, n) :: ns, r, acc =>
+    let r1 := match cb with
+      | some chain => (r.getRules chain).1
+      | none => r
+    match findRule r1.rules n with
+    | none => if ignoreInvalid then enableLoopLazy b ignoreInvalid ns r1 acc
+              else (r1, .error (.keyError n))
+    | some i => enableLoopLazy b ignoreInvalid ns { r1 with rules := setEnabled r1.rules i b } (n :: acc)
+
+/-- `Ruler.enable(lazy_names)` / `Ruler.disable(lazy_names)`.  When the loop raises, the trailing
+    invalidation is skipped: the cache is whatever the loop left. -/
+def Ruler.setLazy (r : Ruler) (b : Bool) (names : List (Option String × String)) (ign : Bool) :
+    Ruler × Except PyErr (List String) :=
+  let (r', res) := enableLoopLazy b ign names { r with cache := none } []
+  match res with
+  | .ok l => ({ r' with cache := none }, .ok l)
+  | .error e => (r', .error e)
+
 def Ruler.allRules (r : Ruler) : List String := r.rules.map (·.name)
 def Ruler.activeRules (r : Ruler) : List String := (r.rules.filter (·.enabled)).map (·.name)
 
@@ -127,6 +152,7 @@ inductive ROp where
   | enableOnly (names : List String) (ign : Bool)
   | disable (names : List String) (ign : Bool)
   | getRules (chain : String)
+  | setLazy (b : Bool) (names : List (Option String × String))   -- lazy iterable, `ignoreInvalid=True`
 deriving Repr
 
 inductive ROut where
@@ -152,6 +178,7 @@ def Ruler.step (r : Ruler) : ROp → Ruler × ROut
   | .enableOnly ns ig => let (r', o) := r.enableOnly ns ig; (r', outL o)
   | .disable ns ig => let (r', o) := r.disable ns ig; (r', outL o)
   | .getRules c => let (r', o) := r.getRules c; (r', .fns o)
+  | .setLazy b ns => let (r', o) := r.setLazy b ns true; (r', outL o)
 
 def Ruler.run (r : Ruler) : List ROp → Ruler
   | [] => r
